@@ -90,3 +90,24 @@ void harness(void) {
   WITNESS_IF(in_which == 0, "drain lock refused"); WITNESS_IF(in_which == 4, "wakeup does not enqueue");
 }
 #endif
+
+#ifdef H_BC_SUSP
+/* the end of a barrier / serial sync item on a SUSPENDED queue with items queued (the item suspended its own queue): _dispatch_lane_barrier_complete must not hand
+   the queue over to the next sync waiter or to queued readers; it only releases the lock (the resume will re-drive the queue) */
+static int handoff_waiter, handoff_readers, class_complete; static u64 cc_target;
+void _dispatch_lane_drain_barrier_waiter(u64 dq, u64 dc, u32 flags, u64 owned) { handoff_waiter++; }
+void _dispatch_lane_drain_non_barriers(u64 dq, u64 dc, u32 flags) { handoff_readers++; }
+void _dispatch_lane_class_barrier_complete(u64 dq, u32 qos, u32 flags, u64 target, u64 owned) { class_complete++; cc_target = target; }
+u64 _dispatch_wait_for_enqueuer(u64 p) { return IR_LD64(p); }
+static u64 in_head_flags;
+void harness(void) {
+  setup(); ASSUME(in_state >= NEEDS_ACTIVATION); ASSUME(OWNER(in_state) == TID && (in_state & IN_BARRIER));
+  /* one item queued: a continuation whose flags (sync waiter / barrier / plain) are arbitrary */
+  u64 dc = ir_bump(P_SZ_cont); SYM(in_head_flags); ASSUME(in_head_flags <= 0xfff); IR_ST64(dc + P_OFF_dc_flags, in_head_flags);
+  IR_ST64(DQ + P_OFF_items_head, dc); IR_ST64(DQ + P_OFF_items_tail, dc);
+  _dispatch_lane_barrier_complete(DQ, 0, 0);
+  ASSERT(handoff_waiter == 0 && handoff_readers == 0, "SUSPENDED: completing an item on a suspended queue never hands the queue to a queued sync waiter or to queued readers");
+  ASSERT(class_complete == 1 && cc_target == 0, "the lock is simply released (no target wakeup); resume re-drives the queue");
+  WITNESS_REACHED("barrier completion on a suspended queue");
+}
+#endif
